@@ -7,6 +7,7 @@ from harness.impl_history import (impl_history_op, call_table, is_export, isolat
                                   CHROMOSOME_LEVEL, introspected)
 from harness import impl_operands as O
 
+DECOY_TWINS = {"quick": 0.02, "thorough": 0.05}     # engine: decoy twins (harness/decoy.py)
 ID = "C10"
 LEAN_MODULE = "BioCantor.Props.C10"
 DESIGN_REF = "4/C10"
